@@ -17,6 +17,10 @@ from . import ber, rfc4511, values
 from .model import Model
 
 
+# A session may legitimately hold a memoryview (e.g. over its own residue): teach deepcopy to clone it as a view over a private copy
+copy._deepcopy_dispatch[memoryview] = lambda x, memo: memoryview(bytearray(x) if not x.readonly else bytes(x))  # noqa: SLF001
+
+
 class Violation(Exception):
     def __init__(self, prop, key, detail=""):
         super().__init__("%s/%s: %s" % (prop, key, detail))
@@ -96,6 +100,7 @@ class Sess:
         self.drained = bytearray()  # every byte ever drained
         self.returned = []  # canon of every message receive() returned
         self.returned_objs = []  # the live objects (C02 self-containedness)
+        self.returned_lists = []  # (the list object receive() returned, a copy of its content at that time)
         self.calls_ok = []  # (method, args, ret) of accepted message calls, in order
         self.errored = None  # exc_info of the ProtocolError that closed it via receive
         self.err_response = None
@@ -388,6 +393,7 @@ class World:
         well_typed = ev["ok"] and isinstance(msgs, list) and all(isinstance(x, sansldap.LDAPMessage) for x in msgs)
         ev["well_typed"] = well_typed
         if well_typed:
+            se.returned_lists.append((msgs, list(msgs)))
             for x in msgs:
                 try:
                     se.returned.append(values.canon_msg(x))
